@@ -62,18 +62,6 @@ Proof.
   apply in_map; auto.
 Qed.
 
-Lemma init_ZeroRule : forall s, trig_coloc_000 s = false -> ZeroRule (init_world s).
-Proof.
-  intros s Htr vid r Hr E0. cbn [init_world w_reps] in *.
-  destruct (Nat.leb_spec (length (reps_of s vid)) 1) as [Hl|Hl]; auto.
-  exfalso. assert (trig_coloc_000 s = true); [|congruence].
-  unfold trig_coloc_000. apply existsb_exists. exists vid. split.
-  - apply reps_of_in in Hr. destruct Hr as [n [Hn [_ [Hv Ev]]]]. rewrite <- Ev. eapply in_all_vids; eauto.
-  - apply andb_true_iff. split.
-    + apply existsb_exists. exists r. split; auto. apply N.eqb_eq; auto.
-    + apply Nat.ltb_lt. lia.
-Qed.
-
 Lemma init_rest : forall s n v, In n s -> In v (all_vols n) ->
   In {| r_loc := n_loc n; r_info := v |} (w_reps (init_world s) (v_id v)).
 Proof.
@@ -82,15 +70,15 @@ Qed.
 
 (* ---------- between the phases ---------- *)
 Record GInv (s : snapshot) (done : vol -> bool) (w : world) : Prop := {
-  g_w : WInv s w; g_n : NodesOk w; g_z : ZeroRule w;
+  g_w : WInv s w; g_n : NodesOk w;
   g_rest : forall n v, In n s -> In v (all_vols n) -> done v = false ->
            In {| r_loc := n_loc n; r_info := v |} (w_reps w (v_id v)) }.
 
-Lemma init_GInv : forall s, wf_snap s -> trig_coloc_000 s = false ->
+Lemma init_GInv : forall s, wf_snap s ->
   GInv s (fun _ => false) (init_world s).
 Proof.
-  intros s Hwf Htr. constructor.
-  - apply init_WInv. - apply init_NodesOk; auto. - apply init_ZeroRule; auto.
+  intros s Hwf. constructor.
+  - apply init_WInv. - apply init_NodesOk; auto.
   - intros. apply init_rest; auto.
 Qed.
 
@@ -98,7 +86,7 @@ Lemma phase_start_BInv : forall limit s done ph w, wf_snap s -> GInv s done w ->
   (forall v, selects limit ph v = true -> done v = false) ->
   BInv s (fun v => done v || selects limit ph v) {| b_sel := init_sel limit s ph; b_w := w |}.
 Proof.
-  intros limit s done ph w [Hnd Hvids] [HW HN HZ Hrest] Hdis.
+  intros limit s done ph w [Hnd Hvids] [HW HN Hrest] Hdis.
   constructor; cbn [b_sel b_w]; auto.
   - intros n v Hv. unfold init_sel in Hv. unfold loc_of.
     destruct (find_node s n) as [nd|] eqn:E; [|destruct Hv].
@@ -200,12 +188,12 @@ Proof.
 Qed.
 
 Theorem balance_accepts_safe : forall limit s colls dts tr w',
-  wf_snap s -> trig_coloc_000 s = false -> phases_ok (phases_of colls dts) = true ->
+  wf_snap s -> phases_ok (phases_of colls dts) = true ->
   balance_accepts limit s colls dts tr = Some w' ->
   ok_coloc (prop_trace s (init_world s) tr) = true /\
   (trig_rp_xy s = false -> ok_pres (prop_trace s (init_world s) tr) = true).
 Proof.
-  intros limit s colls dts tr w' Hwf Htr Hok H. unfold balance_accepts in H.
+  intros limit s colls dts tr w' Hwf Hok H. unfold balance_accepts in H.
   eapply balance_run_safe; eauto.
   - apply init_GInv; auto.
   - apply (phases_ok_disjoint limit _ []); auto.
